@@ -78,6 +78,7 @@ def gen(rng, facts):
                 if rng.random() < 0.4: cs.append(fresh(a_log(rng.randrange(nt))))
                 inj.append((y, v, cs))
             c.poll(inj)
+    c.mark_tail()
     for _ in range(4):
         for t in range(nt + 2): c.resume(t)
         c.tick(3 * g)
